@@ -121,6 +121,10 @@ extern int mpt_graph_set(MPT_STRUCT(graph) *gr, const char *name, MPT_INTERFACE(
 		}
 		if ((type = mpt_graph_pointer_typeid()) > 0
 		 && (len = src->_vptr->convert(src, type, &from)) >= 0) {
+			/* assignment to itself */
+			if (len && from == gr) {
+				return 0;
+			}
 			mpt_graph_fini(gr);
 			mpt_graph_init(gr, len ? from : 0);
 			return 0;
@@ -143,6 +147,10 @@ extern int mpt_graph_set(MPT_STRUCT(graph) *gr, const char *name, MPT_INTERFACE(
 		}
 		if ((type = mpt_graph_pointer_typeid()) > 0
 		 && (len = src->_vptr->convert(src, type, &from)) >= 0) {
+			/* assignment to itself */
+			if (len && from == gr) {
+				return 0;
+			}
 			mpt_graph_fini(gr);
 			mpt_graph_init(gr, from);
 			return len <= 0 ? len : 1;
